@@ -307,7 +307,7 @@ def make_r_fmt(disp="vfmt_disp", lit="vfmt_lit", hex2="vfmt_hex2_upper", wmap=No
                 raise Unsupported("format args mismatch in " + fmt)
             before = text[code[k].start:end]
             # keep it an expression of type (): a block
-            after = "{ " + " ".join(calls) + " }"
+            after = calls[0].rstrip(";") if len(calls) == 1 else "({ " + " ".join(calls) + " })"
             ctx.app("R-fmt", rl.norm_ws(before), after)
             text = text[:code[k].start] + after + text[end:]
 
@@ -670,3 +670,63 @@ def add_false(spec):
         if t.kind == "ident" and t.text == "decreases":
             return spec[:t.start] + "ensures false,\n        " + spec[t.start:]
     return spec.rstrip("\n") + "\n        ensures false,\n"
+
+
+def make_r_tailbind(var="r_", proof_anchor=True):
+    """R-tailbind: `{ stmts; TAIL }`  ->  `{ stmts; let r_ = TAIL; r_ }` so that proof hints can be placed
+    between the computation of the result and the return (anchor `before#1:r_\n`).  Nothing is dropped."""
+
+    def r_tailbind(text, ctx):
+        header, body = fn_split(text)
+        inner = body[1:body.rstrip().rfind("}")]
+        # last top-level ';'
+        toks = rl.lex(inner)
+        depth, last = 0, -1
+        for t in toks:
+            if t.kind == "punct":
+                if t.text in rl.OPEN:
+                    depth += 1
+                elif t.text in rl.CLOSE:
+                    depth -= 1
+                elif t.text == ";" and depth == 0:
+                    last = t.end
+        tail = inner[last if last >= 0 else 0:]
+        if not tail.strip():
+            raise Unsupported(ctx.key + ": R-tailbind: no tail expression")
+        head = inner[:last] if last >= 0 else ""
+        new_body = "{" + head + "\n        let %s = %s;\n        %s\n    }" % (var, tail.strip(), var)
+        ctx.app("R-tailbind", "tail expression", "let %s = <tail>; %s" % (var, var))
+        return header + new_body
+
+    return r_tailbind
+
+
+def r_unit_tail(text, ctx):
+    """R-unit-tail: in a function returning (), terminate the tail expression with `;` so that a proof block
+    can follow it.  (`{ e }` and `{ e; }` are the same for e: ().)"""
+    header, body = fn_split(text)
+    close = body.rstrip().rfind("}")
+    inner = body[1:close]
+    if inner.rstrip().endswith(";") or inner.rstrip().endswith("}"):
+        return text
+    ctx.app("R-unit-tail", "tail expression of type ()", "`;` appended")
+    return header + "{" + inner.rstrip() + ";\n    }"
+
+
+def r_dynw(text, ctx):
+    """R-dynw: `sql: &mut dyn SqlWriter` (or `&mut dyn fmt::Write` / `&mut dyn Write`) -> generic `&mut W`
+    with `W: VWrite`; `sql.as_writer()` -> `sql`.  Dynamic dispatch on the writer is dropped; justified because
+    both SqlWriter impls are verified against the same trait contract in unit `writer`."""
+    pat = r"&mut\s+dyn\s+(?:SqlWriter|fmt::Write|std::fmt::Write|Write)\b"
+    n = len(re.findall(pat, text))
+    if n == 0:
+        raise LostAnchor(ctx.key + ": R-dynw: no dyn writer parameter")
+    text = re.sub(pat, "&mut W", text)
+    m = re.search(r"\bfn\s+([A-Za-z_][A-Za-z0-9_]*)\s*(<)?", text)
+    if m.group(2):
+        text = text[:m.end()] + "W: VWrite, " + text[m.end():]
+    else:
+        text = text[:m.end(1)] + "<W: VWrite>" + text[m.end(1):]
+    text, k = re.subn(r"\b([a-z_]+)\.as_writer\(\)", r"\1", text)
+    ctx.app("R-dynw", "&mut dyn SqlWriter x%d, .as_writer() x%d" % (n, k), "&mut W, W: VWrite")
+    return text
